@@ -932,7 +932,7 @@ func main() {
 						wp := wits[i]
 						detail := res.Detail + " | formatted: " + fmt.Sprintf("%q", res.Formatted)
 						if wp.Code != p.Code {
-							detail = "reduced from a call with more arguments; replay for the exact difference"
+							detail = "witness reduced from a larger violating case of the same class; replay it for the exact difference"
 						}
 						b := bests[class]
 						if b == nil {
